@@ -181,6 +181,38 @@ def body_harvester(E, n1, pre, ow, mode, b, reload_, base, t, p1, p2):
         return same_fp(last1, last2)
 
 
+def body_harvester_meanwhile(E, reload_, sync2, base, t):
+    """the harvester holds data in memory when it sows; before the reap another process merges further points
+    into the same file; the crop is reaped by the sowing object or by one loaded by name: the file ends up with
+    the union - exactly what harvest_combos at that moment would leave"""
+    reload_ = cbool(reload_)
+    with E() as env:
+        name = env.parent + "/d.h5"
+
+        def harvester():
+            return Harvester(make_runner(base, 1, False, False, t), data_name=name)
+
+        h = harvester()
+        h.harvest_combos({"a": [10], "b": [20]}, verbosity=0)            # data in memory at sow time
+        crop = h.Crop(name="hc", parent_dir=env.parent, batchsize=1)
+        crop.sow_combos({"a": [11], "b": [20]}, verbosity=0)
+        other = harvester()
+        other.harvest_combos({"a": [12], "b": [20]}, verbosity=0)       # meanwhile, elsewhere
+        grow_all(env, "hc", reload_)
+        if reload_:
+            crop = cp.Crop(name="hc", parent_dir=env.parent)
+            h = crop.farmer
+        crop.reap()
+        ref = harvester()
+        ref.data_name = env.parent + "/ref.h5"
+        ref.harvest_combos({"a": [10, 11, 12], "b": [20]}, verbosity=0)
+        disk = mg.load_ds(name)
+        fp_disk = fingerprint(env, disk)
+        if env.mode == "real":
+            disk.close()
+        return same_fp(fp_disk, fingerprint(env, ref.full_ds)) and same_fp(fingerprint(env, h.full_ds), fp_disk)
+
+
 def _merge_error(env):
     if env.mode == "sym":
         from ..stubs import minixr
@@ -261,6 +293,11 @@ CONDS = [
               bounds="Harvester crops vs direct harvest_combos: 1-2 settings, optional earlier data (equal or "
                      "conflicting), the three overwrite policies, all batchings, reload on/off: same exception "
                      "behaviour, same full_ds, same disk dataset, same last_ds; crop kept iff the merge failed") + [
+    make_cond(_G, "harvester_meanwhile", body_harvester_meanwhile, "reload_:bool sync2:bool base:int t:int", [],
+              timeout=200,
+              bounds="Harvester with data in memory at sow time, another process merging a further point into the "
+                     "same file before the reap, crop reaped by the sowing object or by one loaded by name: the file "
+                     "holds the union"),
     make_cond(_G, "sampler", body_sampler, "n:int bs:int reload_:bool base:int i0:int i1:int i2:int i3:int ov:bool",
               ["1 <= n <= 2 and 1 <= bs <= 2 and 0 <= i0 <= 1 and 0 <= i1 <= 1 and 0 <= i2 <= 1 and 0 <= i3 <= 1",
                "n == 2 or (i2 == 0 and i3 == 0)"], timeout=600,
